@@ -37,6 +37,21 @@ CHECKS = {
  'C10': ('bfs', 'explicit-state breadth-first search with failing arguments in the alphabet (fault enumeration over argument classes): expected-error transitions must fail, leave the decoded message unchanged and the view consistent; size limit checked from packets below, at and above 8192 bytes',
          'Same state graph as C08 including initial packets larger than the limit and 64 KiB-adjacent ones; every operation the abstract semantics says must fail is required to fail atomically.',
          'which error kind is returned is not compared', '§4.2, §5 C10'),
+ 'C11': ('input-sweep', 'stateless exhaustive exploration of all action strings over {delete, next} (prefix-closed, each re-executed from a fresh real cursor) for every section content up to size n, set-based oracle',
+         'Every delete/next schedule of a walk, for every section size, section, OPT position and compression layout in the bounds, is executed on the real cursor and driven to the end of the walk; exact deletion, void second deletion, no resurrection, full coverage of survivors, final content/count and termination are checked on each.',
+         'both cursor protocols after a deletion (restart or continue) are accepted', '§5 C11'),
+ 'C12': ('input-sweep', 'exhaustive enumeration: all 65536 header words x all 65536 16-bit arguments of set_flags, x all 256 arguments of set_opcode/set_rcode, x both set_response forms, bit-level reference per setter, whole packet compared',
+         'The full 2^32 space (header word x significant argument half) of set_flags and the full spaces of the other setters are enumerated on the real code; the ignored upper argument half is covered per bit and by seed-chosen samples, as the property itself states.',
+         'none beyond the bit-level reference of each setter', '§5 C12'),
+ 'C13': ('input-sweep', 'bounded-exhaustive enumeration of a typed text grammar (valid texts with boundary values x casings x whitespace layouts), its token- and character-level damage closure, and every string over a 12-character alphabet up to length n after each type prefix; reference wire encoder',
+         'Valid texts are generated from typed field values so the expected wire bytes never depend on parsing; must-reject classes of the statement are generated explicitly; all other strings are held to no-panic and well-formed-if-accepted.',
+         'strings outside the must-accept / must-reject classes are only held to the last clause of the statement', '§5 C13'),
+ 'C14': ('input-sweep', 'exhaustive enumeration of all byte strings over a 10-symbol alphabet up to length n x default-zone choices plus boundary length grids, classified by the statement (must accept / must reject / unspecified), label-exact expected wire form, read-back through a real record',
+         'Every short name over an alphabet containing the separator, case twins, digits, hyphen, underscore, backslash, a control byte and high bytes is converted by the real code, with and without default zone; accepted names are compared label by label and read back through set_raw_name/name().',
+         'empty string and "." are outside the statement', '§5 C14'),
+ 'C18': ('input-sweep', 'exhaustive parameter grids of adversarial packet families (pointer chains incl. over-limit ones, over-long label runs, dense option lists) x doubling sizes, plus every short input; oracle on the hook step counter: absolute 64*len+4096 and bounded growth of steps/len under doubling',
+         'The families are built to maximise pointer following and include structures beyond the current limits (so that removing a limit is observable); every member of every family at every size is parsed by the real code with the step counter armed.',
+         'steps are counted where the hooks sit (name, record and option loops)', '§5 C18'),
 }
 
 def entry(pid):
